@@ -96,3 +96,30 @@ def mixed(own, tier, pid, need_watch=False, serial_only=False):
     if not others:
         return own
     return st.integers(0, 9).flatmap(lambda k: own if k < 6 else st.one_of(*others).map(fix))
+
+
+def with_stop(base, one_in=5):
+    """Scenarios of `base` in which, one time in `one_in`, some actor stops a bus (often with a handler in flight on it or with its run
+    loop queued for the global lock). The scenario is marked sc['stops'] so that oracles can leave what stop() abandons unjudged."""
+    from hypothesis import strategies as st
+
+    @st.composite
+    def _s(draw):
+        sc = draw(base)
+        if draw(st.integers(0, one_in - 1)) != 0:
+            return sc
+        sc = dict(sc)
+        actors = [list(a) for a in sc['actors']]
+        ai = draw(st.integers(0, len(actors) - 1))
+        pos = draw(st.integers(min(1, len(actors[ai])), len(actors[ai])))
+        pre = draw(st.sampled_from([None, 0.01, 0.05, 0.1, 0.11, 0.25]))
+        # prefer a bus some handler is registered on / this actor dispatched to, so that the stop often lands on a busy bus
+        used = [op[1] for op in actors[ai][:pos] if op[0] in ('disp', 'burst')] + [h['bus'] for h in sc['handlers']]
+        bus = draw(st.sampled_from(used)) if used and draw(st.integers(0, 3)) else draw(st.integers(0, len(sc['buses']) - 1))
+        ins = ([['sleep', pre]] if pre is not None else []) + [['stop', bus, draw(st.sampled_from([None, None, 0, 0.05, 0.25])), False]]
+        actors[ai] = actors[ai][:pos] + ins + actors[ai][pos:]
+        sc['actors'] = actors
+        sc['stops'] = True
+        return sc
+
+    return _s()
